@@ -53,6 +53,12 @@ func NewClient(addr string, ctype ClientType, queueSize int, flushInterval time.
 
 func (c *client) Dial(ctx context.Context) error {
 	c.dialOnce.Do(func() {
+		select {
+		case <-c.done:
+			// closed before it was ever used: don't connect
+			return
+		default:
+		}
 		conn, err := c.dialer(ctx, "tcp", c.addr)
 		if err != nil {
 			c.fail(fmt.Errorf("failed to dial RegionServer: %s", err))
